@@ -301,10 +301,20 @@ Definition hits_ok (kernel : nat) (atoms : list atom) (d : bytes) (hits : list h
   nondecreasing (map (hit_key kernel atoms) hits) &&
   (Nat.ltb kernel 2%nat || match hits with [] => true | _ => false end).
 
+(* the alphabet of a Base64 sub-pattern: 64 distinct bytes, '=' not among them (the side
+   conditions of PipelineB64CompleteProofs.pipeline_base64_complete_partial) *)
+Fixpoint nodup_b (l : list N) : bool :=
+  match l with [] => true | x :: t => negb (existsb (N.eqb x) t) && nodup_b t end.
+Definition alphabets_ok (sps : list subpat) : bool :=
+  forallb (fun sp => match sp_kind sp with
+                     | KBase64 _ _ alpha _ => Nat.eqb (length alpha) 64 && nodup_b alpha && negb (existsb (N.eqb 61) alpha)
+                     | _ => true
+                     end) sps.
+
 Definition pipe_check (p : pat) (sps : list subpat) (atoms : list atom) (kernel : nat) (hits : list hit)
                       (d : bytes) (rep : list triple) : bool :=
   (match expected_sps p with Some e => list_eqb sp_eqb sps e | None => true end) &&
-  all_atoms_ok p sps atoms &&
+  all_atoms_ok p sps atoms && alphabets_ok sps &&
   hits_ok kernel atoms d hits &&
   list_eqb triple_eqb rep (map nat_triple (scan_pipeline sps atoms hits d)).
 
